@@ -16,6 +16,7 @@ import traceback
 
 HERE = os.path.dirname(os.path.abspath(__file__))
 sys.path.insert(0, os.path.dirname(HERE))
+REPO = os.environ.get('VERIF_REPO') or '/repo'
 
 
 def run(modname, call, trace=False):
@@ -28,8 +29,8 @@ def run(modname, call, trace=False):
     def prof(frame, event, arg):
         if event == 'call':
             co = frame.f_code
-            if co.co_filename.startswith('/repo/'):
-                seen.add('%s:%s' % (os.path.relpath(co.co_filename, '/repo'), co.co_qualname))
+            if co.co_filename.startswith(REPO + '/'):
+                seen.add('%s:%s' % (os.path.relpath(co.co_filename, REPO), co.co_qualname))
     try:
         if trace:
             sys.setprofile(prof)
